@@ -313,10 +313,7 @@ def shrink(case, pred, env, budget=120):
     return best
 
 
-SOURCE_FINDINGS = {
-    "C07": [("removeProfileEvictsPg", "0", "source:postgres:remove_profile-keeps-key-cache-entry",
-             "the Postgres backend's remove_profile does not evict the removed profile from the handle's key cache")],
-}
+SOURCE_FINDINGS = {}   # prop -> [(flag, defective value, signature, what)]; no entry at present (see DESIGN 10.2)
 
 
 def load_known():
